@@ -303,13 +303,19 @@ func (r *intraProxyStreamReceiver) recvReplicationMessages() error {
 			st.UpdateStreamReplicationMessages(r.streamID, exclusiveHighWatermark)
 			st.UpdateStream(r.streamID)
 
-			// Track last watermark for late-registering shards
-			r.lastWatermarkMu.Lock()
-			r.lastWatermark = &replicationv1.WorkflowReplicationMessages{
-				ExclusiveHighWatermark: exclusiveHighWatermark,
-				Priority:               priority,
+			// Track last watermark for late-registering shards. Only a watermark-only message says
+			// that the source has nothing outstanding below it: the high watermark of a message
+			// that carries tasks belongs to the whole source batch, whose tasks for other target
+			// shards may still be waiting for those shards to register. Replaying it to a shard
+			// that registers later would let that shard acknowledge tasks it has not received yet.
+			if len(msgs.Messages.ReplicationTasks) == 0 {
+				r.lastWatermarkMu.Lock()
+				r.lastWatermark = &replicationv1.WorkflowReplicationMessages{
+					ExclusiveHighWatermark: exclusiveHighWatermark,
+					Priority:               priority,
+				}
+				r.lastWatermarkMu.Unlock()
 			}
-			r.lastWatermarkMu.Unlock()
 
 			r.logger.Debug(fmt.Sprintf("Receiver received ReplicationTasks: exclusive_high=%d ids=%v", exclusiveHighWatermark, ids))
 
